@@ -7,6 +7,7 @@ import DesyncModel.Tables.Sync
 import DesyncModel.Tables.Wake
 import DesyncModel.Inv.RunReach
 import DesyncModel.Inv.ErasedReach
+import DesyncModel.Inv.CvReach
 
 namespace Desync.C04
 open Desync Gen
@@ -52,5 +53,27 @@ theorem sync_waits_for_its_own_closure {s : State} (hr : Reachable s) {j : Nat} 
     (hb : s.jobs[j]? = some b) (hk : b.kind = .erasedDrain owner body ∨ b.kind = .erasedBg owner body) (hnd : b.ph ≠ .done) :
     (s.pcAt owner).awaited = some j :=
   erased_job_owner_waits hr hb hk hnd
+
+/-! ### the condition variable of `sync_background`: no lost notification once the job has run -/
+
+/-- **A sync caller asleep on its condition variable is never left there once its job has been run.**  In every reachable
+state, for a caller blocked in `Condvar::wait` (`sbWaiting`): it has been notified (it will wake, re-check and return), or
+its `ready` flag is not set (its lifetime-erased job has not been dropped yet: `sync_waits_for_its_own_closure` places the
+job in the queue or in a runner's hands), or whoever dropped the job is between setting the flag and `notify_all`.
+The proof is the code comment made exact: the caller holds its `ready` lock from seeing "not ready" until the wait releases
+it (`caller_waits_under_its_lock`), and the flag is set only with that lock free. -/
+theorem sleeping_sync_caller_is_not_forgotten {s : State} (hr : Reachable s) {a q j : Nat} (hpc : s.pcAt a = .sbWaiting q j) :
+    s.isWoken a = true ∨ s.isReady a = false ∨ ∃ b j', (s.pcAt b).dropNotifies = some j' ∧ s.jobOwner j' = some a :=
+  (cvInv_reachable hr).w a (by rw [hpc]; rfl)
+
+/-- between testing `ready` and starting to wait the caller holds its own `ready` lock, the flag is still down, and nobody
+else holds that lock (each `ready` lock has one holder; `reschedule_queue` holds the lock of the caller it signals) -/
+theorem caller_waits_under_its_lock {s : State} (hr : Reachable s) {a : Nat} (hpc : (s.pcAt a).sbNr = true) :
+    (a, a) ∈ s.readyLock ∧ s.isReady a = false ∧ ∀ b, (a, b) ∈ s.readyLock → b = a :=
+  let h := cvInv_reachable hr
+  ⟨h.rl a (sbNr_sbOwn hpc), h.nr a hpc, fun b hb => h.ml a b a hb (h.rl a (sbNr_sbOwn hpc))⟩
+
+theorem signaller_holds_the_callers_lock {s : State} (hr : Reachable s) {b w : Nat} (hpc : (s.pcAt b).notifies = some w) : (w, b) ∈ s.readyLock :=
+  (cvInv_reachable hr).rl2 b w hpc
 
 end Desync.C04
